@@ -40,7 +40,7 @@ def gen(parent):
 
 def run(tier):
     res = Result(PID)
-    N, nh = (7, 6) if tier == "quick" else (10, 8)
+    N, nh = (8, 6) if tier == "quick" else (10, 8)
     rnd = random.Random(seed())
     allf = [f for n in range(1, N + 1) for f in F.forests(n)]
     rnd.shuffle(allf)
